@@ -105,12 +105,16 @@ PROPS["C05"] = {
 }
 
 PROPS["C19"] = {
-    "bounds": "one Ordered call from an arbitrary register state (one-step induction: own register present/absent with any value, one other register), keys 1..3 symbolic bytes; sequences of 3 calls over two 2-byte names; FNV-1a-64 injectivity for distinct names of 1..3 bytes; two concurrent Ordered calls on the same 2-byte name with free timestamps followed by a third call, every interleaving with at most 2 (thorough 3) preemptions at lock / atomic / channel operations",
+    "bounds": "one Ordered call from an arbitrary register state (one-step induction: own register present/absent with any value, one other register), keys 1..3 symbolic bytes; sequences of 3 calls over two 2-byte names; distinct names of 1..3 free bytes each never share a register, and no printable name of 5..6 free bytes shares the register of one of 3 concrete names (enough free bytes for a collision partner to exist under any 32-bit hash; thorough: two free 4-byte names); two concurrent Ordered calls on the same 2-byte name with free timestamps followed by a third call, every interleaving with at most 2 (thorough 3) preemptions at lock / atomic / channel operations",
     "outside": "interleavings beyond the preemption bound or at plain memory accesses (beyond the bound reduced to: sequential max-register spec + the global mutex being held across the whole compare-and-set and released on every path); more than two concurrent callers; 64-bit hash collisions of longer names",
     "assumptions": ["mutual exclusion by the global mutex + sequential specification imply linearizability to a max-register per name"],
     "groups": [
         {"pkg": "validate", "hdir": "validate", "specs": [spec("C19/step", "VerifC19Step"), spec("C19/seq", "VerifC19Seq"), spec("C19/fnv-injective", "VerifC19Injective")]},
-        {"pkg": "validate", "hdir": "validate", "opts": {"timeout_ms": 900000, "budget_s": 1500, "solver": "z3-new-t"}, "specs": [spec("C19/fnv-injective/len=4", "VerifC19Injective", {"len": "4"})]},
+        {"pkg": "validate", "hdir": "validate", "specs": [
+            spec("C19/fnv-injective/fixed=abcd/other<=6", "VerifC19Injective", {"fixed": "abcd", "len": "6"}),
+            spec("C19/fnv-injective/fixed=a.b/other<=5", "VerifC19Injective", {"fixed": "a.b", "len": "5"}),
+            spec("C19/fnv-injective/fixed=servers.web01.cpu.user/other<=6", "VerifC19Injective", {"fixed": "servers.web01.cpu.user", "len": "6"})]},
+        {"pkg": "validate", "hdir": "validate", "opts": {"timeout_ms": 1800000, "budget_s": 3000, "solver": "z3-new-t"}, "specs": [spec("C19/fnv-injective/len=4", "VerifC19Injective", {"len": "4"}, tier="thorough")]},
         {"pkg": "validate", "hdir": "validate", "native_optional": True, "specs": [
             spec("C19/concurrent/2-callers/preemptions<=1", "VerifC19Concurrent", {"preemptions": "1"}),
             spec("C19/concurrent/2-callers/preemptions<=2", "VerifC19Concurrent", {"preemptions": "2"}),
